@@ -234,7 +234,10 @@ func init() {
 			per, steps = 50, 25
 		}
 		distinct := map[string]bool{}
-		for ci, cfg := range fullStackConfigs(tier) {
+		// (the in-process backend hands its get results over differently — buffered channels
+		// closed at once — so the orchestrators' reply loops are exercised over it as well)
+		cfgs := append(fullStackConfigs(tier), StackCfg{Orca: "l1only", Locked: "none", Bits: 0, L1: "inmem"}, StackCfg{Orca: "l1l2", Locked: "mr", Bits: 2, L1: "inmem"})
+		for ci, cfg := range cfgs {
 			for n := 0; n < per; n++ {
 				g := &Gen{r: rand.New(rand.NewSource(seed*7907 + int64(ci)*131 + int64(n)))}
 				sc := Scenario{ID: fmt.Sprintf("C08-%d-%d", ci, n), Stack: cfg}
